@@ -133,6 +133,44 @@ def calcU (u : Int) : Fields := calcF (roundMs u)
 /-- `Date(u / 1e6).toUTCString(k)` -/
 def toUTCStringU (k : Fmt) (u : Int) : Bytes := fmtFields k (calcU u) (roundMs u % 1000).toNat
 
+/-! ## the stored `double`
+
+`Date` stores `double` seconds.  `Date(ms / 1000.0)` (how every whole-millisecond instant enters the library: the
+parser, `Date::now`, the harness) holds the IEEE-754 binary64 quotient, modelled exactly as a dyadic rational
+`n / 2^k` (`|n| ≤ 2^53`), computed with integer arithmetic only: `k` is the least exponent `≥ 15` that makes the
+quotient at least `2^52` units (`2^52 * 1000 = 4503599627370496000`), `n` the round-half-even quotient.  In years
+1..9999 `|t| < 2^38 s`, so `k ≥ 15` is the exponent of the format there (unit in the last place `2^-15 s ≈ 30.5 us`). -/
+
+/-- round-half-to-even of `a / 1000` -/
+def rne1000 (a : Int) : Int :=
+  let q := a / 1000
+  let r := a % 1000
+  if r * 2 < 1000 then q else if 1000 < r * 2 then q + 1 else if q % 2 = 0 then q else q + 1
+
+/-- least `k' ≥ k` (within `fuel` steps) with `a * 2^k' ≥ 2^52 * 1000` -/
+def expFrom (a : Nat) (k : Nat) : Nat → Nat
+  | 0 => k
+  | fuel + 1 => if 4503599627370496000 ≤ a * 2 ^ k then k else expFrom a (k + 1) fuel
+
+/-- the double `(double)ms / 1000.0` as `(n, k)`, value `n / 2^k` (for `1 ≤ |ms| < 2^38 * 1000`; `k ≤ 62`) -/
+def toDouble (ms : Int) : Int × Nat :=
+  let k := expFrom ms.natAbs 15 47
+  (rne1000 (ms * 2 ^ k), k)
+
+/-- `floor(t * 1000 + 0.5)` for the double `t = n / 2^k`, in exact arithmetic -/
+def roundMsD (d : Int × Nat) : Int := (d.1 * 2000 + 2 ^ d.2) / 2 ^ (d.2 + 1)
+
+/-- lowest terms of `n / 2^k` (what the harness prints of the real double) -/
+def normD : Nat → Int → Nat → Int × Nat
+  | 0, n, k => (n, k)
+  | f + 1, n, k => if k = 0 ∨ n % 2 ≠ 0 then (n, k) else normD f (n / 2) (k - 1)
+
+/-- `Date(ms / 1000.0).splitUTC()` through the stored double -/
+def calcD (ms : Int) : Fields := calcF (roundMsD (toDouble ms))
+
+/-- `Date(ms / 1000.0).toUTCString(k)` through the stored double -/
+def toUTCStringD (k : Fmt) (ms : Int) : Bytes := toUTCString k (roundMsD (toDouble ms))
+
 /-! ## Date::Date(const String&) -/
 
 /-- read `s[i]`; index `length` is the NUL terminator; beyond it the read is out of bounds -/
